@@ -246,8 +246,19 @@ func Handle(c *core.Check, st core.State) {
 					// root cause: the two results are the same value of different TYPES, and the type was
 					// unified with an arm whose (nested) marks are not collected: only top-level marks of
 					// the arms are combined into the result
+					// (judged on the results of the localised conditional itself, not on the results of
+					// the expression around it: `[b ? null : [...]]` wraps the two nulls in a tuple)
 					if site == "cond" {
-						if c1, err := convert.Convert(u1, u0.Type()); (err == nil && c1.RawEquals(u0)) || (u0.IsNull() && u1.IsNull()) {
+						w0, w1 := u0, u1
+						if se, sd := hclsyntax.ParseExpression([]byte(e1.Render(small, e1.Layout{})), "cond.hcl", hcl.InitialPos); !sd.HasErrors() {
+							s0, d0 := se.Value(&hcl.EvalContext{Variables: e1.With(sc0, extra), Functions: funcs})
+							s1, d1 := se.Value(&hcl.EvalContext{Variables: e1.With(sc1, extra), Functions: funcs})
+							if !d0.HasErrors() && !d1.HasErrors() {
+								w0, _ = s0.UnmarkDeep()
+								w1, _ = s1.UnmarkDeep()
+							}
+						}
+						if c1, err := convert.Convert(w1, w0.Type()); (err == nil && c1.RawEquals(w0)) || (w0.IsNull() && w1.IsNull()) {
 							site = "cond/result-type-from-marked-arm"
 						}
 					}
